@@ -509,8 +509,13 @@ def c12_table(seed, scheme, parent_enc, ndim, naming, extras, pos_order, malform
             # an integer property spread over two columns (e.g. a timestamp in ns and a plate index)
             r["ns0"] = 2**53 + 1 + 2 * i
             r["ns1"] = i
+        if extras == "area":
+            # a measurement column loaded through the features argument ({"Area": "area"}), not
+            # through the name map
+            r = {k: v for k, v in r.items() if k not in ("score", "vec")}
+            r["area"] = 7.0 + i
         rows.append(r)
-    cols = ["time"] + axes + ["id", "parent_id"] + (["score", "vec"] if extras else []) + (["ns0", "ns1"] if extras == "multi" else [])
+    cols = ["time"] + axes + ["id", "parent_id"] + (["score", "vec"] if extras and extras != "area" else []) + (["ns0", "ns1"] if extras == "multi" else []) + (["area"] if extras == "area" else [])
     if pos_order == "rev":
         cols = list(reversed(cols))  # column order of the table must not matter either
     df = pd.DataFrame(rows, columns=cols)
@@ -551,7 +556,7 @@ def c12_table(seed, scheme, parent_enc, ndim, naming, extras, pos_order, malform
     R = lambda c: rename.get(c, c)  # noqa: E731
     order = list(axes) if pos_order == "std" else list(reversed(axes))
     nmap = {"time": R("time"), "pos": [R(a) for a in order], "id": R("id"), "parent_id": R("parent_id")}
-    if extras:
+    if extras and extras != "area":
         nmap["score"] = R("score")
         nmap["vec"] = R("vec")
     if extras == "multi":
@@ -578,15 +583,51 @@ def c12_table(seed, scheme, parent_enc, ndim, naming, extras, pos_order, malform
     return df, nmap, expected
 
 
+def c12_pair_case(case):
+    """two imports in a row that share the caller's objects (the same name-map dict, and for a
+    repeated table the same DataFrame): each one must reproduce its own source"""
+    from funtracks.import_export.csv._import import tracks_from_df
+    _k, case_a, case_b = case
+    shared = None
+    tables = {}
+    out = []
+    for which, sub in (("first", case_a), ("second", case_b)):
+        _kind, seed_j, scheme, parent_enc, ndim, naming, extras, pos_order, _mal, _row = sub
+        key = repr(sub)
+        if key in tables:
+            df, nmap, exp = tables[key]
+        else:
+            df, nmap, exp = c12_table(worlds.seed_from_json(seed_j), scheme, parent_enc, ndim, naming, extras, pos_order)
+            tables[key] = (df, nmap, exp)
+        if shared is None:
+            shared, shared0 = nmap, {k: (list(v) if isinstance(v, list) else v) for k, v in nmap.items()}
+        elif nmap != shared0:
+            raise RuntimeError("pair case with different name maps")
+        cls = f"pair:{which}:{scheme}:{naming}:{case_a[6]}>{case_b[6]}"
+        feats = {"Area": "area"} if extras == "area" else None
+        try:
+            tr = tracks_from_df(df, features=feats, node_name_map=shared)
+        except ValueError as e:
+            return out + [vio("C12", "wellformed-rejected", f"{which} of two imports sharing the caller's name map: ValueError: {str(e)[:200]}", case, "tracks_from_df-pair", cls)]
+        except Exception as e:  # noqa: BLE001
+            return out + [vio("C12", "wellformed-raises", f"{which} of two imports: {type(e).__name__}: {str(e)[:200]}", case, "tracks_from_df-pair", cls + ":" + type(e).__name__)]
+        out += _c12_compare(tr, exp, scheme, case, cls, "tracks_from_df-pair")
+        if out:
+            return out
+    return out
+
+
 def c12_case(case):
     from funtracks.import_export.csv._import import tracks_from_df
+    if case[0] == "df2":
+        return c12_pair_case(case)
     kind, seed_j, scheme, parent_enc, ndim, naming, extras, pos_order, malformed, row = case
     seed = worlds.seed_from_json(seed_j)
     df, nmap, exp = c12_table(seed, scheme, parent_enc, ndim, naming, extras, pos_order, malformed, row)
     cls = f"{scheme}:{naming}" + (f":{malformed}" if malformed else "")
     df0 = df.copy(deep=True)
     try:
-        tr = tracks_from_df(df, node_name_map=dict(nmap))
+        tr = tracks_from_df(df, features={"Area": "area"} if extras == "area" else None, node_name_map=dict(nmap))
     except ValueError as e:
         if malformed:
             return []
@@ -638,6 +679,9 @@ def _c12_compare(tr, exp, scheme, case, cls, check):
         if "stamp" in r and norm(tr.get_node_attr(node, "stamp")) != norm(r["stamp"]):
             out.append(vio("C12", "custom-property", f"node {node}: stamp {tr.get_node_attr(node, 'stamp')} != source column 'time' value {r['stamp']}", case, check, cls))
             break
+        if "area" in r and norm(tr.get_node_attr(node, "area")) != norm(r["area"]):
+            out.append(vio("C12", "custom-property", f"node {node}: area {tr.get_node_attr(node, 'area')} != source column value {r['area']} (features={{'Area': 'area'}})", case, check, cls))
+            break
         if "score" in r:
             got = tr.get_node_attr(node, "score")
             if r["score"] is None:
@@ -688,6 +732,22 @@ def c12_cases(tier):
                                 yield ("df", sj, scheme, penc, ndim, naming, extras, order, None, 0)
                         if scheme in ("seq", "huge", "str") and ndim == 3 and naming in ("std", "renamed") and penc == "minus1":
                             yield ("df", sj, scheme, penc, ndim, naming, "multi", "std", None, 0)
+    # a measurement column loaded through the features argument
+    for seed in forests:
+        sj = worlds.seed_to_json(seed)
+        for scheme in ("seq", "str", "zero"):
+            for naming in ("std", "renamed"):
+                yield ("df", sj, scheme, "minus1", 3, naming, "area", "std", None, 0)
+    # sessions: every ordered pair of imports (tables of <= 2 / <= 3 rows) that can share one name map
+    tiny = list(worlds.forests(2 if q else 3, 3, 1))
+    for sa in tiny:
+        for sb in tiny:
+            for scheme in ("seq", "str"):
+                for naming in ("std", "renamed"):
+                    for ea, eb in ((False, False), (False, "area"), ("area", False), ("area", "area"), (True, True), ("sparse", True), (True, "sparse")):
+                        ca = ("df", worlds.seed_to_json(sa), scheme, "minus1", 3, naming, ea, "std", None, 0)
+                        cb = ("df", worlds.seed_to_json(sb), scheme, "minus1", 3, naming, eb, "std", None, 0)
+                        yield ("df2", ca, cb)
     small = list(worlds.forests(3, 3, 1))
     for seed in small:
         sj = worlds.seed_to_json(seed)
